@@ -109,11 +109,13 @@ CLAIMED["C13"] = dict(
     text="is_trivially_dead / would_be_trivially_dead / result_only_effects are extracted from /repo and proved to be EXACTLY the statement's "
          "conjunction (results unused; not a terminator; not a symbol; effects known and each one a read or an allocation owned by the subtree); "
          "RemoveUnusedOperations.match_and_rewrite erases only under that predicate, only attached ops, only through rewriter.erase; LiveSet "
-         "is_live/set_live/propagate_op_liveness are monotone and keep every observable op and every op with a live user. The pass-level "
+         "is_live/set_live/propagate_op_liveness are monotone and keep every observable op and every op with a live user, and liveness is propagated into every "
+         "region of an op that ends up live; LiveSet.delete_dead erases an operation only if it is not live (and only after the listener was told), erases a block only if it is not the entry "
+         "block and holds no live operation, cleans the regions of every live operation recursively and sets `changed` whenever it erases. The pass-level "
          "clauses (exact remaining ops and blocks = oracle liveness/reachability, nothing removable left, IR consistent) are decided by a "
          "bounded stand-in on generated CFG regions for region_dce and the dce pattern pass.",
     note="Assumed: trait declarations are truthful; get_effects bound as an opaque expression; PatternRewriter.erase / propagate_region_liveness "
-         "trusted callee contracts; delete_dead and the fixpoint loop bounded only; pyvc + z3 trusted.",
+         "trusted callee contracts; the fixpoint loop of region_dce (iteration to `changed == False`) bounded only; pyvc + z3 trusted.",
     design="§4 C13",
     technique="contract-based deductive verification of the removability predicates and liveness steps (SMT) + bounded stand-in with independent liveness oracle",
 )
@@ -167,11 +169,13 @@ CLAIMED["C19"] = dict(
          "must still be in its register when read (no two simultaneously live values share a register), values in `zero` must be the constant zero, "
          "pre-assigned registers are kept, results equal the SSA evaluation. Additionally every RegisterStack method (push, pop, reserve, unreserve, "
          "include, exclude) is under a discharged contract (pyvc + z3): the pool is a duplicate-free stack of allocatable non-reserved registers, a popped "
-         "register is no longer available, infinite registers get strictly increasing indices. Exploration is the honest level for the property as a whole.",
-    note="Bounded stand-in for the interference statement, never counted as proved; ValueAllocator/BlockNaiveAllocator/per-op allocate_registers and the x86 "
-         "allocator are not under contract; one pool at a time in the RegisterStack proofs.",
+         "register is no longer available, infinite registers get strictly increasing indices; ValueAllocator.allocate_value / free_value are under contract on top "
+         "of it (an unallocated value gets a register popped from the pool - hence held by no live value -, an allocated one is left alone, free_value "
+         "returns exactly the value's own allocatable register). Exploration is the honest level for the property as a whole.",
+    note="Bounded stand-in for the interference statement, never counted as proved; the remaining ValueAllocator methods (allocate_values_same_reg, new_type_for_value), BlockNaiveAllocator, per-op "
+         "allocate_registers and the x86 allocator are not under contract; one pool at a time in the RegisterStack proofs.",
     design="§4 C19",
-    technique="bounded runtime-contract check on a register-machine model (stand-in) + discharged contracts on RegisterStack (representation invariant)",
+    technique="bounded runtime-contract check on a register-machine model (stand-in) + discharged contracts on RegisterStack (representation invariant) and ValueAllocator.allocate_value/free_value",
 )
 
 CLAIMED["C02"] = dict(
@@ -194,13 +198,18 @@ CLAIMED["C14"] = dict(
     text="Kernels proved for all operand values per width: for EVERY concrete subclass of SignlessIntegerBinaryOperation found by introspection, "
          "py_operation agrees with the MLIR semantics on bit patterns (folded constants are bit-exact), is_right_unit / is_right_zero are genuine "
          "identities / absorbing elements, Commutative classes commute; _fold_const_operation equals the IEEE-754 operation (signed zeros, infinities, "
-         "NaNs); ApplyCmpiPredicateToEqualOperands replaces cmpi p,x,x by the predicate's value. The pass-level statement (canonicalize, cse, "
+         "NaNs); ApplyCmpiPredicateToEqualOperands replaces cmpi p,x,x by the predicate's value. On top of those lemmas (used as callee contracts, not "
+         "re-executed) the rewrites themselves are under contract with a denotation ghost VALB(value): SignlessIntegerBinaryOperation.fold per class and "
+         "constant/argument combination, the patterns SignlessIntegerBinaryOperationZeroOrUnitRight and ...ConstantProp per class, and SelectConstPattern / "
+         "SelectTrueFalsePattern / SelectSamePattern carry the obligation that whatever they return / pass to rewriter.replace denotes the value of the "
+         "replaced result for ALL values of the non-constant operands (whenever the original is not poison). The pass-level statement (canonicalize, cse, "
          "constant-fold-interp, test-constant-folding passes never change results and never fail) is decided by a bounded stand-in: generated programs "
          "evaluated before/after with an independent reference evaluator on boundary inputs.",
-    note="The fold / pattern plumbing through the rewriter, CSE and the driver are bounded only; f32 double rounding assumed; scf/cf canonicalizations "
+    note="The rewriter, CSE and the driver (C11) and the remaining arith patterns (reassociation, cmpi constants, float patterns' plumbing) are bounded only; "
+         "const_evaluate_operand(_attribute) and ConstantOp.from_int_and_width are trusted models; f32 double rounding assumed; scf/cf canonicalizations "
          "not covered; known finding: constant-fold-interp of unsigned cmpi (same root cause as C15). pyvc + z3 trusted.",
     design="§4 C14",
-    technique="contract-based deductive verification of per-class semantic lemmas generated over the live subclass list (SMT) + bounded stand-in with reference evaluator",
+    technique="contract-based deductive verification: per-class semantic lemmas generated over the live subclass list, then fold and the rewrite patterns verified modularly against them with a value-denotation ghost (SMT) + bounded stand-in with reference evaluator",
 )
 
 CLAIMED["C25"] = dict(
